@@ -2,19 +2,20 @@
    decode one exported instance and run every checker on it. *)
 From Coq Require Import List ZArith Bool.
 Import ListNotations.
-From V Require Import Valid.Hier Valid.Walk Valid.FlatRegion Valid.Wf Valid.Cons Valid.Struct.
+From V Require Import Valid.Hier Valid.Walk Valid.FlatRegion Valid.Wf Valid.Cons Valid.Struct Model.RegionFlat.
 Local Open Scope Z_scope.
 
 Definition b2z (b : bool) : Z := if b then 1 else 0.
 
-(* result: [decoded; c01 flat; c01 region; c04; c05; c06; c03 loop part; c03 full] *)
+(* result: [decoded; c01 flat; c01 region; c04; c05; c06; c03 loop part; c03 full;
+            the region discipline resolves every arc of every block (RegionFlat.arcs_resolve)] *)
 Definition run_instance (rows : list (list Z)) : list Z :=
   match decode rows with
   | None => [0]
   | Some (g, h) =>
     [1; b2z (c01_check false g h); b2z (c01_check true g h);
      b2z (wf_check h); b2z (cons_check g h); b2z (c06_check h);
-     b2z (c03_check false h); b2z (c03_check true h)]
+     b2z (c03_check false h); b2z (c03_check true h); b2z (arcs_resolve h)]
   end.
 
 Definition col (k : nat) (rows : list (list Z)) : Z := nth k (run_instance rows) 0.
